@@ -516,4 +516,411 @@ Section Main.
         eapply ok_intro; [|apply valrel_some|eauto|eauto].
         apply in_or_app. right. destruct (kset_diff (aL a) ks); [contradiction|now left].
   Qed.
+
+  (** * Unfolding of the abstract executor *)
+  Lemma aexec_S m e st : aexec (S m) e st =
+    match e with
+    | EB b => Some {| o_norm := [(Some b, st)]; o_brk := []; o_ret := [] |}
+    | EVar x => Some {| o_norm := [(aenv_get (aenv st) x, st)]; o_brk := []; o_ret := [] |}
+    | ENot a =>
+        match aexec m a st with
+        | Some o => Some {| o_norm := map (fun vs => (neg_aval (fst vs), snd vs)) (o_norm o); o_brk := o_brk o; o_ret := o_ret o |}
+        | None => None
+        end
+    | EPrim pr => match aprim G C pr st with Some l => Some {| o_norm := l; o_brk := []; o_ret := [] |} | None => None end
+    | ECall f arg =>
+        match c_mode C f with
+        | FNT mm ct cf =>
+            match arg with
+            | Some (_, true) => None
+            | _ =>
+                let ds := a_pd G C (inr mm) (ar st) in
+                match ct, ds with
+                | true, [] => None
+                | _, _ =>
+                    Some {| o_norm :=
+                              (if ct then [(Some true, {| aL := all_kinds; aenv := aenv st; ar := ds; ac := true |})] else []) ++
+                              (if cf then [(Some false, st)] else []);
+                            o_brk := []; o_ret := [] |}
+                end
+            end
+        | FInline =>
+            match fn_body p f with
+            | None => None
+            | Some body =>
+                let cen := match arg with Some (x, _) => [aenv_get (aenv st) x] | None => [] end in
+                match aexec m body (with_env st cen) with
+                | None => None
+                | Some o =>
+                    match o_brk o with
+                    | _ :: _ => None
+                    | [] =>
+                        let back (vs : aval * astate) : aval * astate :=
+                          match arg with
+                          | Some (x, true) => (fst vs, with_env (snd vs) (aenv_set (aenv st) x (aenv_get (aenv (snd vs)) 0)))
+                          | _ => (fst vs, with_env (snd vs) (aenv st))
+                          end in
+                        Some {| o_norm := map back (o_norm o ++ o_ret o); o_brk := []; o_ret := [] |}
+                    end
+                end
+            end
+        end
+    | ESeq a b => match aexec m a st with Some o => bind_norm o (fun _ st1 => aexec m b st1) | None => None end
+    | EIf c a b =>
+        match aexec m c st with
+        | Some o => bind_norm o (fun v st1 =>
+                      match v with
+                      | Some true => aexec m a st1
+                      | Some false => aexec m b st1
+                      | None => match aexec m a st1, aexec m b st1 with
+                                | Some o1, Some o2 => Some (outs_app o1 o2) | _, _ => None end
+                      end)
+        | None => None
+        end
+    | EWhile c b => witer (aexec m c) (aexec m b) m [st]
+    | EBreak => Some {| o_norm := []; o_brk := [st]; o_ret := [] |}
+    | EReturn a =>
+        match aexec m a st with
+        | Some o => Some {| o_norm := []; o_brk := o_brk o; o_ret := o_norm o ++ o_ret o |}
+        | None => None
+        end
+    | ESet x a =>
+        match aexec m a st with
+        | Some o => Some {| o_norm := map (fun vs => (Some true, with_env (snd vs) (aenv_set (aenv (snd vs)) x (fst vs)))) (o_norm o);
+                            o_brk := o_brk o; o_ret := o_ret o |}
+        | None => None
+        end
+    end.
+  Proof. destruct e; reflexivity. Qed.
+
+  Definition Sound (n : nat) : Prop := forall e en s m a o F E0,
+    aexec m e a = Some o -> Rel E0 a en s -> Frm F a s -> okres E0 F o (gexec n p e en s).
+
+  Lemma okres_later E0 F o n e1 en1 s1 : (E0 <= nerr s1)%nat ->
+    (nerr s1 = E0 -> okres E0 F o (gexec n p e1 en1 s1)) -> okres E0 F o (gexec n p e1 en1 s1).
+  Proof.
+    intros Hle H. pose proof (gexec_mono p n e1 en1 s1) as M.
+    destruct (gexec n p e1 en1 s1); cbn in *; auto; intros Q; apply H; lia.
+  Qed.
+
+  Lemma with_env_ok E0 F a1 ae en1 en s1 :
+    Rel E0 a1 en1 s1 -> Frm F a1 s1 -> envrel ae en -> Rel E0 (with_env a1 ae) en s1 /\ Frm F (with_env a1 ae) s1.
+  Proof.
+    intros (R1 & R2 & R3 & R4) (u & U1 & U2 & U3) He. split; [repeat split; auto|].
+    exists u. split; [exact U1|split; [exact U2|exact U3]].
+  Qed.
+
+  Lemma witer_spec exc exb : forall k I0 res, witer exc exb k I0 = Some res ->
+    exists I next, incl I0 I /\ wround exc exb I = Some (res, next) /\ subset_states next I = true.
+  Proof.
+    induction k as [|k IH]; intros I0 res H; cbn [witer] in H; try discriminate.
+    destruct (wround exc exb I0) as [[r nx]|] eqn:E; try discriminate.
+    destruct (subset_states nx I0) eqn:Sb.
+    - inversion H. subst r. exists I0, nx. repeat split; auto. apply incl_refl.
+    - apply IH in H as (I & next & Hi & Hr & Hs). exists I, next. repeat split; auto.
+      eapply incl_tran; [|exact Hi]. apply incl_appl, incl_refl.
+  Qed.
+  Lemma wround_spec exc exb Inv res next : wround exc exb Inv = Some (res, next) ->
+    exists oc ob, run_all exc Inv = Some oc /\ o_brk oc = [] /\
+      bind_norm {| o_norm := filter (fun vs => match fst vs with Some false => false | _ => true end) (o_norm oc);
+                   o_brk := []; o_ret := [] |} (fun _ st1 => exb st1) = Some ob /\
+      res = {| o_norm := map (fun s => (Some true, s))
+                             (map snd (filter (fun vs => match fst vs with Some true => false | _ => true end) (o_norm oc)) ++ o_brk ob);
+               o_brk := []; o_ret := o_ret oc ++ o_ret ob |} /\
+      next = map snd (o_norm ob).
+  Proof.
+    unfold wround. destruct (run_all exc Inv) as [oc|]; try discriminate.
+    destruct (o_brk oc) eqn:B; try discriminate.
+    match goal with |- context [bind_norm ?X ?K] => destruct (bind_norm X K) as [ob|] eqn:E end; try discriminate.
+    intros H. inversion H. subst. exists oc, ob. repeat split; auto.
+  Qed.
+
+  Lemma sound_all : forall n, Sound n.
+  Proof.
+    induction n as [n IHn] using lt_wf_ind.
+    destruct n as [|n]; [intros e en s m a o F E0 _ _ _; exact I|].
+    assert (IH : Sound n) by (apply IHn; lia).
+    intros e en s m a o F E0 Ha HR HF. destruct m as [|m]; [discriminate|].
+    rewrite aexec_S in Ha. pose proof HR as (R1 & R2 & R3 & R4).
+    assert (Hs0 : (E0 <= nerr s)%nat) by lia.
+    destruct e as [b|x|a0|pr|f arg|a0 b0|c a0 b0|c b0| |a0|x a0]; cbn [gexec].
+    - (* EB *) inversion Ha. subst o. cbn [okres]. intros _. exists (Some b), a. repeat split; auto; [now left|apply valrel_some].
+    - (* EVar *) inversion Ha. subst o. destruct (env_get en x) as [v|] eqn:E; cbn [okres]; auto. intros _.
+      exists (aenv_get (aenv a) x), a. split; [now left|]. split; [eapply envrel_get; eauto|]. split; auto.
+    - (* ENot *) destruct (aexec m a0 a) as [o0|] eqn:E0'; try discriminate. inversion Ha. subst o.
+      pose proof (IH a0 en s m a o0 F E0 E0' HR HF) as H.
+      destruct (gexec n p a0 en s) as [[b|k] en1 s1|en1 s1|v en1 s1| |]; cbn [okres] in *; auto.
+      + intros Q. destruct (H Q) as (av & a' & Hin & Hv & HR' & HF').
+        exists (neg_aval av), a'. split; [|split; auto].
+        * cbn. apply in_map_iff. exists (av, a'). auto.
+        * intros b' Hb. destruct av as [bb|]; try discriminate. cbn in Hb. inversion Hb.
+          specialize (Hv bb eq_refl). inversion Hv. reflexivity.
+    - (* EPrim *) destruct (aprim G C pr a) as [l|] eqn:E; try discriminate. inversion Ha. subst o.
+      apply (aprim_sound E0 F pr a l en s E HR HF).
+    - (* ECall *)
+      destruct (fn_body p f) as [body|] eqn:Eb; [|exact I].
+      set (cen := match arg with Some (x, _) => match env_get en x with Some v => Some [v] | None => None end | None => Some [] end).
+      destruct cen as [cen0|] eqn:Ecen; [|exact I].
+      destruct (c_mode C f) as [|mm ct cf] eqn:Em; cbv zeta in Ha.
+      + (* inline *)
+        set (acen := match arg with Some (x, _) => [aenv_get (aenv a) x] | None => [] end) in Ha.
+        destruct (aexec m body (with_env a acen)) as [ob|] eqn:Eab; try discriminate.
+        destruct (o_brk ob) eqn:Ebrk; try discriminate. injection Ha as Ho. rewrite <- Ho. clear Ho.
+        match goal with |- okres _ _ ?O _ => set (OUT := O) end.
+        assert (Hen : envrel acen cen0).
+        { subst acen cen. destruct arg as [[x byref]|].
+          - destruct (env_get en x) as [v0|] eqn:Ex; try discriminate. inversion Ecen. subst cen0.
+            intros y b Hy. destruct y as [|y]; cbn in Hy.
+            + inversion Hy. cbn. f_equal. apply (envrel_get _ _ _ _ R4 Ex b). auto.
+            + destruct y; discriminate.
+          - inversion Ecen. intros y b Hy. destruct y; discriminate. }
+        destruct (with_env_ok E0 F a acen en cen0 s HR HF Hen) as (HRc & HFc).
+        pose proof (IH body cen0 s m _ ob F E0 Eab HRc HFc) as H.
+        assert (Back : forall v cen1 s1 av a1, In (av, a1) (o_norm ob ++ o_ret ob) -> valrel av v -> Rel E0 a1 cen1 s1 -> Frm F a1 s1 ->
+                  nerr s1 = E0 ->
+                  okres E0 F OUT
+                    (match arg with
+                     | Some (x, true) => match env_get cen1 0 with Some w => RVal v (env_set en x w) s1 | None => RPanic end
+                     | _ => RVal v en s1
+                     end)).
+        { intros v cen1 s1 av a1 Hin Hv HR1 HF1 Q.
+          destruct arg as [[x [|]]|].
+          - destruct (env_get cen1 0) as [w|] eqn:Ew; [|exact I]. cbn [okres]. intros _.
+            destruct (with_env_ok E0 F a1 (aenv_set (aenv a) x (aenv_get (aenv a1) 0)) cen1 (env_set en x w) s1 HR1 HF1) as (HR2 & HF2).
+            { apply envrel_set; auto. eapply envrel_get; eauto. apply HR1. }
+            exists av, (with_env a1 (aenv_set (aenv a) x (aenv_get (aenv a1) 0))). split; [|auto].
+            unfold OUT. cbn [o_norm]. apply in_map_iff. exists (av, a1). auto.
+          - cbn [okres]. intros _. destruct (with_env_ok E0 F a1 (aenv a) cen1 en s1 HR1 HF1 R4) as (HR2 & HF2).
+            exists av, (with_env a1 (aenv a)). split; [|auto]. unfold OUT. cbn [o_norm]. apply in_map_iff. exists (av, a1). auto.
+          - cbn [okres]. intros _. destruct (with_env_ok E0 F a1 (aenv a) cen1 en s1 HR1 HF1 R4) as (HR2 & HF2).
+            exists av, (with_env a1 (aenv a)). split; [|auto]. unfold OUT. cbn [o_norm]. apply in_map_iff. exists (av, a1). auto. }
+        pose proof (gexec_mono p n body cen0 s) as M.
+        destruct (gexec n p body cen0 s) as [v cen1 s1|cen1 s1|v cen1 s1| |]; cbn [okres res_ge] in *; auto.
+        * assert (Hq : nerr s1 = E0 -> okres E0 F OUT (match arg with
+                     | Some (x, true) => match env_get cen1 0 with Some w => RVal v (env_set en x w) s1 | None => RPanic end
+                     | _ => RVal v en s1 end)).
+          { intros Q. destruct (H Q) as (av & a1 & Hin & Hv & HR1 & HF1). eapply Back; eauto. apply in_or_app. now left. }
+          destruct arg as [[x [|]]|]; [destruct (env_get cen1 0); [|exact I]| |]; cbn [okres] in *; intros Q; apply Hq; auto.
+        * assert (Hq : nerr s1 = E0 -> okres E0 F OUT (match arg with
+                     | Some (x, true) => match env_get cen1 0 with Some w => RVal v (env_set en x w) s1 | None => RPanic end
+                     | _ => RVal v en s1 end)).
+          { intros Q. destruct (H Q) as (av & a1 & Hin & Hv & HR1 & HF1). eapply Back; eauto. apply in_or_app. now right. }
+          destruct arg as [[x [|]]|]; [destruct (env_get cen1 0); [|exact I]| |]; cbn [okres] in *; intros Q; apply Hq; auto.
+      + (* NT function *)
+        assert (Hlt : (f < List.length (fns p))%nat) by (apply nth_error_Some; unfold fn_body in Eb; congruence).
+        pose proof (Hcheck f Hlt) as Hck. unfold check_fn in Hck. rewrite Em, Eb in Hck.
+        destruct (nth_error G mm) as [rhs|] eqn:Erhs; try discriminate.
+        destruct (GramAbs.aexec G p C cfuel body (init_state rhs)) as [of|] eqn:Eof; try discriminate.
+        destruct (o_brk of) eqn:Ebrk; try discriminate.
+        rewrite forallb_forall in Hck.
+        assert (Hnotref : match arg with Some (_, true) => False | _ => True end).
+        { destruct arg as [[x [|]]|]; auto. discriminate. }
+        set (F' := {| fR := rhs; fw := W s; fcur := cur s |}).
+        assert (HRi : Rel E0 (init_state rhs) cen0 s).
+        { repeat split; auto. - apply all_token_kinds_complete. - intros y b Hy. destruct y as [|[|y]]; discriminate. }
+        assert (HFi : Frm F' (init_state rhs) s).
+        { exists []. cbn. rewrite app_nil_r. repeat split; auto. intros r v [<-|[]] Hm. exact Hm. }
+        pose proof (IH body cen0 s cfuel _ of F' E0 Eof HRi HFi) as H.
+        set (ds := a_pd G C (inr mm) (ar a)) in Ha.
+        assert (Ho : o = {| o_norm := (if ct then [(Some true, {| aL := all_kinds; aenv := aenv a; ar := ds; ac := true |})] else []) ++
+                                      (if cf then [(Some false, a)] else []); o_brk := []; o_ret := [] |} /\ (ct = true -> ds <> [])).
+        { destruct arg as [[x [|]]|]; try contradiction; destruct ct; destruct ds eqn:Eds; try discriminate; inversion Ha; split; auto; intros; discriminate. }
+        destruct Ho as (-> & Hds). clear Ha.
+        match goal with |- okres _ _ ?O _ => set (OUT := O) end.
+        assert (Exit : forall v cen1 s1 av a', In (av, a') (o_norm of ++ o_ret of) -> valrel av v -> Rel E0 a' cen1 s1 -> Frm F' a' s1 ->
+                  okres E0 F OUT (RVal v en s1)).
+        { intros v cen1 s1 av a' Hin Hv (P1 & P2 & P3 & P4) (u & V1 & V2 & V3). cbn [okres]. intros _.
+          specialize (Hck _ Hin). unfold exit_ok in Hck. cbn [fst snd] in Hck.
+          destruct HF as (uc & U1 & U2 & U3).
+          destruct av as [[|]|]; try discriminate.
+          - (* returned true *)
+            apply andb_true_iff in Hck as [-> Hnul]. unfold a_nullable in Hnul.
+            apply existsb_exists in Hnul as (r0 & Hr0 & Hn0). apply nullable_sound in Hn0.
+            assert (Hd : derives G mm u).
+            { eapply MNT; eauto. specialize (V2 r0 [] Hr0 Hn0). now rewrite app_nil_r in V2. }
+            exists (Some true), {| aL := all_kinds; aenv := aenv a; ar := ds; ac := true |}.
+            split; [unfold OUT; cbn [o_norm]; apply in_or_app; left; now left|]. split; [exact Hv|]. split.
+            + repeat split; auto. apply all_token_kinds_complete.
+            + exists (uc ++ u). cbn [ar ac]. split; [|split; [|discriminate]].
+              * cbn [fw F'] in V1. rewrite V1, U1, map_app, app_assoc. reflexivity.
+              * intros r' v' Hr' Hm'. unfold ds, a_pd in Hr'. apply dedup_rx_In in Hr'.
+                apply in_flat_map in Hr' as (r1 & Hr1 & Hr').
+                rewrite <- app_assoc. apply (U2 r1); auto. eapply pd_sound; eauto.
+          - (* returned false *)
+            apply andb_true_iff in Hck as [-> Hac]. apply negb_true_iff in Hac.
+            destruct (V3 Hac) as (-> & Hcur). cbn [fcur fw F'] in *. rewrite app_nil_r in V1.
+            exists (Some false), a. split; [unfold OUT; cbn [o_norm]; apply in_or_app; right; now left|]. split; [exact Hv|]. split.
+            + repeat split; auto. now rewrite Hcur.
+            + exists uc. split; [now rewrite V1|split; [exact U2|]]. intros Hc0. destruct (U3 Hc0) as (-> & Hcc). split; auto. congruence. }
+        pose proof (gexec_mono p n body cen0 s) as M.
+        destruct (gexec n p body cen0 s) as [v cen1 s1|cen1 s1|v cen1 s1| |]; cbn [okres res_ge] in *; auto.
+        * assert (Hq : nerr s1 = E0 -> okres E0 F OUT (RVal v en s1)).
+          { intros Q. destruct (H Q) as (av & a1 & Hin & Hv & HR1 & HF1).
+            exact (Exit v cen1 s1 av a1 (in_or_app _ _ _ (or_introl Hin)) Hv HR1 HF1). }
+          destruct arg as [[x [|]]|]; try contradiction; cbn [okres] in *; intros Q; apply Hq; auto.
+        * assert (Hq : nerr s1 = E0 -> okres E0 F OUT (RVal v en s1)).
+          { intros Q. destruct (H Q) as (av & a1 & Hin & Hv & HR1 & HF1).
+            exact (Exit v cen1 s1 av a1 (in_or_app _ _ _ (or_intror Hin)) Hv HR1 HF1). }
+          destruct arg as [[x [|]]|]; try contradiction; cbn [okres] in *; intros Q; apply Hq; auto.
+    - (* ESeq *)
+      destruct (aexec m a0 a) as [o0|] eqn:E0'; try discriminate.
+      pose proof (IH a0 en s m a o0 F E0 E0' HR HF) as H.
+      destruct (bind_norm_spec _ _ _ Ha) as (Bb & Br & Bn).
+      pose proof (gexec_mono p n a0 en s) as M.
+      destruct (gexec n p a0 en s) as [v en1 s1|en1 s1|v en1 s1| |]; cbn [okres res_ge] in *; auto.
+      + apply okres_later; [lia|]. intros Q. destruct (H Q) as (av & a' & Hin & Hv & HR' & HF').
+        destruct (Bn av a' Hin) as (o1 & E1 & I1). eapply okres_incl; [exact I1|]. eapply IH; eauto.
+      + intros Q. destruct (H Q) as (a' & Hin & HR' & HF'). exists a'. split; auto.
+      + intros Q. destruct (H Q) as (av & a' & Hin & Hv & HR' & HF'). exists av, a'. split; auto.
+    - (* EIf *)
+      destruct (aexec m c a) as [o0|] eqn:E0'; try discriminate.
+      pose proof (IH c en s m a o0 F E0 E0' HR HF) as H.
+      destruct (bind_norm_spec _ _ _ Ha) as (Bb & Br & Bn).
+      pose proof (gexec_mono p n c en s) as M.
+      destruct (gexec n p c en s) as [[[|]|k] en1 s1|en1 s1|v en1 s1| |]; cbn [okres res_ge] in *; auto.
+      + apply okres_later; [lia|]. intros Q. destruct (H Q) as (av & a' & Hin & Hv & HR' & HF').
+        destruct (Bn av a' Hin) as (o1 & E1 & I1). eapply okres_incl; [exact I1|].
+        destruct av as [[|]|].
+        * eapply IH; eauto.
+        * specialize (Hv false eq_refl). discriminate.
+        * destruct (aexec m a0 a') as [oa|] eqn:Ea; try discriminate.
+          destruct (aexec m b0 a') as [ob|] eqn:Eb; try discriminate. inversion E1. subst o1.
+          eapply okres_incl; [apply outs_incl_app_l|]. eapply IH; eauto.
+      + apply okres_later; [lia|]. intros Q. destruct (H Q) as (av & a' & Hin & Hv & HR' & HF').
+        destruct (Bn av a' Hin) as (o1 & E1 & I1). eapply okres_incl; [exact I1|].
+        destruct av as [[|]|].
+        * specialize (Hv true eq_refl). discriminate.
+        * eapply IH; eauto.
+        * destruct (aexec m a0 a') as [oa|] eqn:Ea; try discriminate.
+          destruct (aexec m b0 a') as [ob|] eqn:Eb; try discriminate. inversion E1. subst o1.
+          eapply okres_incl; [apply outs_incl_app_r|]. eapply IH; eauto.
+      + intros Q. destruct (H Q) as (a' & Hin & HR' & HF'). exists a'. split; auto.
+      + intros Q. destruct (H Q) as (av & a' & Hin & Hv & HR' & HF'). exists av, a'. split; auto.
+    - (* EWhile *)
+      apply witer_spec in Ha as (Inv & next & HI & Hr & Hsub).
+      apply wround_spec in Hr as (oc & ob & Hrun & Hbrk & Hbind & -> & ->).
+      destruct (bind_norm_spec _ _ _ Hbind) as (_ & _ & Bn). cbn [o_norm] in Bn.
+      match goal with |- okres E0 F ?R _ => set (RES := R) end.
+      assert (L : forall j, (j <= S n)%nat -> forall en' s' a', In a' Inv -> Rel E0 a' en' s' -> Frm F a' s' ->
+                  okres E0 F RES (gexec j p (EWhile c b0) en' s')).
+      { induction j as [|j IHj]; intros Hj en' s' a' Hin HR' HF'; [exact I|].
+        cbn [gexec].
+        destruct (run_all_spec _ _ _ Hrun a' Hin) as (oa & Ea & Ioa).
+        assert (Sj : Sound j) by (apply IHn; lia).
+        pose proof (Sj c en' s' m a' oa F E0 Ea HR' HF') as Hc. apply (okres_incl _ _ _ _ _ Ioa) in Hc.
+        pose proof (gexec_mono p j c en' s') as Mc.
+        assert (Hs' : nerr s' = E0) by apply HR'.
+        destruct (gexec j p c en' s') as [[[|]|k] en1 s1|en1 s1|v en1 s1| |]; cbn [okres res_ge] in *; auto.
+        - (* condition true *)
+          pose proof (gexec_mono p j b0 en1 s1) as Mb.
+          assert (Body : nerr s1 = E0 -> exists a1 o1, aexec m b0 a1 = Some o1 /\ outs_incl o1 ob /\ Rel E0 a1 en1 s1 /\ Frm F a1 s1).
+          { intros Q1. destruct (Hc Q1) as (av & a1 & Hin1 & Hv1 & HR1 & HF1).
+            assert (Hf : In (av, a1) (filter (fun vs => match fst vs with Some false => false | _ => true end) (o_norm oc))).
+            { apply filter_In. split; auto. cbn. destruct av as [[|]|]; auto. specialize (Hv1 false eq_refl). discriminate. }
+            destruct (Bn av a1 Hf) as (o1 & E1 & I1). exists a1, o1. auto. }
+          destruct (gexec j p b0 en1 s1) as [v2 en2 s2|en2 s2|v2 en2 s2| |] eqn:Eb; cbn [res_ge] in Mb; auto.
+          + apply okres_later; [lia|]. intros Q2.
+            destruct (Body ltac:(lia)) as (a1 & o1 & E1 & I1 & HR1 & HF1).
+            pose proof (Sj b0 en1 s1 m a1 o1 F E0 E1 HR1 HF1) as Hb. rewrite Eb in Hb. cbn [okres] in Hb.
+            destruct (Hb Q2) as (av2 & a2 & Hin2 & _ & HR2 & HF2).
+            assert (Hn : In a2 (map snd (o_norm ob))).
+            { apply in_map_iff. exists (av2, a2). split; auto. apply I1, Hin2. }
+            unfold subset_states in Hsub. rewrite forallb_forall in Hsub. specialize (Hsub _ Hn).
+            apply existsb_exists in Hsub as (y & Hy & Ey).
+            destruct (astate_eqb_rel _ _ Ey E0 F en2 s2 HR2 HF2) as (HRy & HFy).
+            apply (IHj ltac:(lia) en2 s2 y Hy HRy HFy).
+          + cbn [okres]. intros Q2.
+            destruct (Body ltac:(lia)) as (a1 & o1 & E1 & I1 & HR1 & HF1).
+            pose proof (Sj b0 en1 s1 m a1 o1 F E0 E1 HR1 HF1) as Hb. rewrite Eb in Hb. cbn [okres] in Hb.
+            destruct (Hb Q2) as (a2 & Hin2 & HR2 & HF2).
+            exists (Some true), a2. split; [|split; [apply valrel_some|auto]].
+            unfold RES. cbn [o_norm]. apply in_map. apply in_or_app. right. apply I1, Hin2.
+          + cbn [okres]. intros Q2.
+            destruct (Body ltac:(lia)) as (a1 & o1 & E1 & I1 & HR1 & HF1).
+            pose proof (Sj b0 en1 s1 m a1 o1 F E0 E1 HR1 HF1) as Hb. rewrite Eb in Hb. cbn [okres] in Hb.
+            destruct (Hb Q2) as (av2 & a2 & Hin2 & Hv2 & HR2 & HF2).
+            exists av2, a2. split; [|auto]. unfold RES. cbn [o_ret]. apply in_or_app. right. apply I1, Hin2.
+        - (* condition false *)
+          intros Q. destruct (Hc Q) as (av & a1 & Hin1 & Hv1 & HR1 & HF1).
+          exists (Some true), a1. split; [|split; [apply valrel_some|auto]].
+          unfold RES. cbn [o_norm]. apply in_map. apply in_or_app. left. apply in_map_iff. exists (av, a1). split; auto.
+          apply filter_In. split; auto. cbn. destruct av as [[|]|]; auto. specialize (Hv1 true eq_refl). discriminate.
+        - (* break in the condition *)
+          intros Q. destruct (Hc Q) as (a1 & Hin1 & _). rewrite Hbrk in Hin1. contradiction.
+        - (* return in the condition *)
+          intros Q. destruct (Hc Q) as (av & a1 & Hin1 & Hv1 & HR1 & HF1).
+          exists av, a1. split; [|auto]. unfold RES. cbn [o_ret]. apply in_or_app. now left. }
+      apply (L (S n) (le_n _) en s a); auto. apply HI. now left.
+    - (* EBreak *) inversion Ha. subst o. cbn [okres]. intros _. exists a. split; [now left|auto].
+    - (* EReturn *) destruct (aexec m a0 a) as [o0|] eqn:E0'; try discriminate. inversion Ha. subst o.
+      pose proof (IH a0 en s m a o0 F E0 E0' HR HF) as H.
+      destruct (gexec n p a0 en s) as [v en1 s1|en1 s1|v en1 s1| |]; cbn [okres] in *; auto.
+      + intros Q. destruct (H Q) as (av & a' & Hin & R). exists av, a'. split; auto. cbn. apply in_or_app. now left.
+      + intros Q. destruct (H Q) as (av & a' & Hin & R). exists av, a'. split; auto. cbn. apply in_or_app. now right.
+    - (* ESet *) destruct (aexec m a0 a) as [o0|] eqn:E0'; try discriminate. inversion Ha. subst o.
+      pose proof (IH a0 en s m a o0 F E0 E0' HR HF) as H.
+      destruct (gexec n p a0 en s) as [v en1 s1|en1 s1|v en1 s1| |]; cbn [okres] in *; auto.
+      intros Q. destruct (H Q) as (av & a' & Hin & Hv & HR' & HF').
+      destruct (with_env_ok E0 F a' (aenv_set (aenv a') x av) en1 (env_set en1 x v) s1 HR' HF') as (HR2 & HF2).
+      { apply envrel_set; auto. apply HR'. }
+      exists (Some true), (with_env a' (aenv_set (aenv a') x av)). split; [|split; [apply valrel_some|auto]].
+      cbn. apply in_map_iff. exists (av, a'). auto.
+  Qed.
 End Main.
+
+(** * The theorem: zero errors => the consumed token kinds are a sentence *)
+Lemma p_new_init txt : errs (p_new txt) = [] /\ after_err (p_new txt) = false /\ bld (p_new txt) = builder_init.
+Proof. unfold p_new. destruct (p_lex_frame {| raw := raw_lex txt; src := txt; pp := pinit; cursor := 0; cur := T_Eof; cur_lo := 0; cur_text := [];
+           bld := builder_init; errs := []; after_err := false; nlex := 0; nstart := 0 |}) as (A & B & D). cbn in *. auto. Qed.
+
+Lemma b_finish_kinds b t : b_finish b = Some t -> bkinds b = tkinds t.
+Proof.
+  unfold b_finish, bkinds. destruct (children b) as [|[k cs|k txt] [|c2 r]]; try discriminate.
+  destruct (parents b); intros H; inversion H; subst; cbn [rev app flat_map]; now rewrite app_nil_r.
+Qed.
+
+Theorem check_all_sound G p C cfuel entry start :
+  check_all G p C cfuel entry start = true ->
+  forall fuel txt t st, parse_with fuel p entry txt = ParseOk t [] st ->
+  exists u : list TokenKind, derives G start u /\ map sk_of_tk u = filter nontriv (tkinds t).
+Proof.
+  unfold check_all. intros Hc fuel txt t st Hp.
+  apply andb_true_iff in Hc as [Hall Hentry].
+  assert (Hcheck : forall f, (f < List.length (fns p))%nat -> check_fn G p C cfuel f = true).
+  { intros f Hf. rewrite forallb_forall in Hall. apply Hall. apply in_seq. lia. }
+  destruct (c_mode C entry) as [|mm ct cf] eqn:Em; try discriminate.
+  destruct ct; try discriminate. destruct cf; try discriminate. apply Nat.eqb_eq in Hentry. subst mm.
+  unfold parse_with in Hp. destruct fuel as [|n]; [discriminate|]. cbn [gexec] in Hp.
+  destruct (fn_body p entry) as [body|] eqn:Eb; [|discriminate].
+  assert (Hlt : (entry < List.length (fns p))%nat) by (apply nth_error_Some; unfold fn_body in Eb; congruence).
+  pose proof (Hcheck entry Hlt) as Hck. unfold check_fn in Hck. rewrite Em, Eb in Hck.
+  destruct (nth_error G start) as [rhs|] eqn:Erhs; try discriminate.
+  destruct (aexec G p C cfuel body (init_state rhs)) as [of|] eqn:Eof; try discriminate.
+  destruct (o_brk of) eqn:Ebrk; try discriminate. rewrite forallb_forall in Hck.
+  destruct (p_new_init txt) as (N1 & N2 & N3).
+  set (s0 := p_new txt) in *.
+  set (F0 := {| fR := rhs; fw := []; fcur := cur s0 |}).
+  assert (HR : Rel 0 (init_state rhs) [] s0).
+  { repeat split; auto. - apply all_token_kinds_complete. - unfold nerr. now rewrite N1. - intros y b Hy. destruct y as [|[|y]]; discriminate. }
+  assert (HF : Frm G F0 (init_state rhs) s0).
+  { exists []. cbn. unfold W. rewrite N3. cbn. repeat split; auto. intros r v [<-|[]] Hm. exact Hm. }
+  pose proof (sound_all G p C cfuel Hcheck n body [] s0 cfuel _ of F0 0%nat Eof HR HF) as H.
+  assert (Fin : forall v cen1 s1, okres G 0 F0 of (RVal v cen1 s1) \/ okres G 0 F0 of (RRet v cen1 s1) ->
+            p_finish s1 = Some (t, []) -> exists u, derives G start u /\ map sk_of_tk u = filter nontriv (tkinds t)).
+  { intros v cen1 s1 Hok Hfin. unfold p_finish in Hfin.
+    destruct (b_finish (bld s1)) as [t'|] eqn:Ebf; try discriminate. inversion Hfin. subst t'.
+    assert (Q : nerr s1 = 0%nat).
+    { unfold nerr. destruct (errs s1); auto. exfalso. apply (f_equal (@List.length _)) in H2. rewrite rev_length in H2. discriminate. }
+    assert (Ex : exists av a', In (av, a') (o_norm of ++ o_ret of) /\ Frm G F0 a' s1).
+    { destruct Hok as [Hok|Hok]; destruct (Hok Q) as (av & a' & Hin & _ & _ & HF'); exists av, a'; split; auto; apply in_or_app; auto. }
+    destruct Ex as (av & a' & Hin & (u & U1 & U2 & U3)).
+    specialize (Hck _ Hin). unfold exit_ok in Hck. cbn [fst snd] in Hck.
+    destruct av as [[|]|]; try discriminate.
+    cbn [andb] in Hck. unfold a_nullable in Hck. apply existsb_exists in Hck as (r0 & Hr0 & Hn0).
+    apply nullable_sound in Hn0. exists u. split.
+    - eapply MNT; eauto. specialize (U2 r0 [] Hr0 Hn0). now rewrite app_nil_r in U2.
+    - cbn [fw F0] in U1. cbn in U1. rewrite <- U1. unfold W. now rewrite (b_finish_kinds _ _ Ebf). }
+  destruct (gexec n p body [] s0) as [v cen1 s1|cen1 s1|v cen1 s1| |]; cbn in Hp; try discriminate.
+  - destruct (p_finish s1) as [[t' es]|] eqn:Ef; try discriminate. inversion Hp. subst. eapply Fin; eauto.
+  - destruct (p_finish s1) as [[t' es]|] eqn:Ef; try discriminate. inversion Hp. subst. eapply Fin; eauto.
+Qed.
